@@ -69,23 +69,30 @@ theorem lastOr_ne_nil (gap : Option Row) (gb : List Row) (h : gb ≠ []) : lastO
       rw [lastOr, ih (some x) (by simp)]
       simp [List.getLast?_cons_cons]
 
+/-- the variables of `for gap in gb: build_scffld.add_row(gap)`: the reference `build_scffld`, the local `gap`, the arena of built scaffolds,
+    the (never changed) arena of left-overs.  The ORDER in which the translator carries them (by the text of their type, then by name:
+    `heap_lo`, `heap_b`, `gap`, `build_scffld`) is named here, in `ISt` / `ist`, and nowhere else -/
+abbrev ISt := List PyRt.Leftover × List Scaffold × Option Row × Nat
+/-- the state of the inner loop with `build_scffld = r`, `gap`, arena `heap`, left-overs `lo` -/
+abbrev ist (r : Nat) (gap : Option Row) (heap : List Scaffold) (lo : List PyRt.Leftover) : ISt := (lo, heap, gap, r)
+
 /-- `for gap in gb: build_scffld.add_row(gap)`: the rows are appended to the object, `gap` is re-bound -/
 theorem forIn_addRows {ρ : Type}
-    (body : Row → (Nat × Option Row × List Scaffold × List PyRt.Leftover) →
-      R (PyRt.Ctl (Nat × Option Row × List Scaffold × List PyRt.Leftover) ρ))
-    (hbody : ∀ g gap r lo heap, body g (r, gap, heap, lo)
-      = .ok (.next (r, some g, PyRt.bsSet heap r (fun sc => { sc with rows := sc.rows ++ [g] }), lo)))
+    (body : Row → ISt → R (PyRt.Ctl ISt ρ))
+    (hbody : ∀ g gap r lo heap, body g (ist r gap heap lo)
+      = .ok (.next (ist r (some g) (PyRt.bsSet heap r (fun sc => { sc with rows := sc.rows ++ [g] })) lo)))
     (gb : List Row) (gap : Option Row) (r : Nat) (lo : List PyRt.Leftover) (heap : List Scaffold) :
-    PyRt.forIn gb (r, gap, heap, lo) body
-      = .ok (.fell (r, lastOr gap gb, PyRt.bsSet heap r (fun sc => { sc with rows := sc.rows ++ gb }), lo)) := by
+    PyRt.forIn gb (ist r gap heap lo) body
+      = .ok (.fell (ist r (lastOr gap gb) (PyRt.bsSet heap r (fun sc => { sc with rows := sc.rows ++ gb })) lo)) := by
   induction gb generalizing gap heap with
   | nil =>
     rw [bsSet_id heap r _ (by intro x; simp)]
     rfl
   | cons g gs ih =>
-    simp only [PyRt.forIn, hbody, ih, lastOr, bsSet_bsSet]
-    congr 5
-    exact bsSet_congr _ _ _ _ (by intro x; simp)
+    rw [PyRt.forIn, hbody]
+    simp only []
+    rw [ih, lastOr, bsSet_bsSet]
+    rw [bsSet_congr heap r _ (fun sc => { sc with rows := sc.rows ++ g :: gs }) (by intro x; simp)]
 
 /-! ### 2. the model side: `fuseByName` as a fold over references -/
 
@@ -406,16 +413,22 @@ theorem foldl_stepSrc_ordered (store : List Res) (extra : List (Scaffold × Opti
 
 /-! ### 5. the loops -/
 
+/-- the variables of `for scffld in self.scaffolds`: the local `gap`, the dict, the arena of built scaffolds, the arena of left-overs.
+    The ORDER in which the translator carries them (by the text of their type, then by name: `hap_name_scaffold`, `heap_lo`, `heap_b`,
+    `gap`) is named here, in `FSt` / `fst4`, and nowhere else -/
+abbrev FSt := List (FKey × Nat) × List PyRt.Leftover × List Scaffold × Option Row
+/-- the state of the outer loop with `gap`, dict `dict`, arena `heap`, left-overs `lo` -/
+abbrev fst4 (gap : Option Row) (dict : List (FKey × Nat)) (heap : List Scaffold) (lo : List PyRt.Leftover) : FSt := (dict, lo, heap, gap)
+
 /-- a loop over `self.scaffolds` whose body does `step` on `(dict, arena, gap)` and leaves the arena of left-overs alone -/
 theorem forIn_fuse {ρ : Type} (step : PyRt.BuiltRef → St → St) (lo0 : List PyRt.Leftover)
-    (body : PyRt.BuiltRef → (Option Row × List (FKey × Nat) × List Scaffold × List PyRt.Leftover) →
-      R (PyRt.Ctl (Option Row × List (FKey × Nat) × List Scaffold × List PyRt.Leftover) ρ))
-    (hbody : ∀ x dict heap gap, body x (gap, dict, heap, lo0)
-      = .ok (.next ((step x (dict, heap, gap)).2.2, (step x (dict, heap, gap)).1, (step x (dict, heap, gap)).2.1, lo0)))
+    (body : PyRt.BuiltRef → FSt → R (PyRt.Ctl FSt ρ))
+    (hbody : ∀ x dict heap gap, body x (fst4 gap dict heap lo0)
+      = .ok (.next (fst4 (step x (dict, heap, gap)).2.2 (step x (dict, heap, gap)).1 (step x (dict, heap, gap)).2.1 lo0)))
     (refs : List PyRt.BuiltRef) (dict : List (FKey × Nat)) (heap : List Scaffold) (gap : Option Row) :
-    PyRt.forIn refs (gap, dict, heap, lo0) body
-      = .ok (.fell ((refs.foldl (fun s x => step x s) (dict, heap, gap)).2.2, (refs.foldl (fun s x => step x s) (dict, heap, gap)).1,
-          (refs.foldl (fun s x => step x s) (dict, heap, gap)).2.1, lo0)) := by
+    PyRt.forIn refs (fst4 gap dict heap lo0) body
+      = .ok (.fell (fst4 (refs.foldl (fun s x => step x s) (dict, heap, gap)).2.2 (refs.foldl (fun s x => step x s) (dict, heap, gap)).1
+          (refs.foldl (fun s x => step x s) (dict, heap, gap)).2.1 lo0)) := by
   induction refs generalizing dict heap gap with
   | nil => rfl
   | cons x xs ih =>
